@@ -70,7 +70,7 @@ LAYOUTS = {
     "ws": ("LAYOUT: LayoutItem | LAYOUT LayoutItem | EMPTY;\nLayoutItem: WS;", "WS: /\\s+/;", [" ", "  ", "\n", "\t "]),
     "ws1": ("LAYOUT: WS | EMPTY;", "WS: /\\s+/;", [" ", "  ", "\n", "\t "]),
     "comment": ("LAYOUT: LayoutItem | LAYOUT LayoutItem | EMPTY;\nLayoutItem: WS | Comment;",
-                "WS: /\\s+/;\nComment: /#[^\\n]*/;", [" ", "\n", "#x\n", " # y z\n ", "#\n"]),
+                "WS: /\\s+/;\nComment: /\\#[^\\n]*/;", [" ", "\n", "#x\n", " # y z\n ", "#\n"]),
     "block": ("LAYOUT: LayoutItem | LAYOUT LayoutItem | EMPTY;\nLayoutItem: WS | Comment;\n"
               "Comment: '/*' CorNCs '*/';\nCorNCs: CorNC | CorNCs CorNC | EMPTY;\nCorNC: Comment | NotComment | WS;",
               "WS: /\\s+/;\nNotComment: /((\\*[^\\/])|[^\\s*\\/]|\\/[^\\*])+/;",
